@@ -66,7 +66,10 @@ LEVEL_TEXT = (
     "(thorough: every two-byte sequence with a high lead byte, UTF-8 3/4-byte boundary sequences) of every codec is fed "
     "through three frames and two paths (a fourth frame puts the bytes first in the template, directly behind the BOM).  "
     "The BOM codec additionally gets, under every BOM declaration style, templates whose first character is U+FF21, U+FEFF, "
-    "U+FFFB, U+F000 (UTF-8 lead byte EF like the BOM) or U+EFFF.  Every ordered pair of distinct output configurations "
+    "U+FFFB, U+F000 (UTF-8 lead byte EF like the BOM) or U+EFFF.  Declaration-style dimension 'long comment': the coding "
+    "comment padded like an editor modeline, after or before the coding: token, to a first line of exactly 40, 99, 100, 101, "
+    "128, 300 and 1100 bytes, as sole declaration, agreeing and conflicting with input_encoding, and contradicting a BOM "
+    "(quick: koi8-r, shift_jis, cp1252, utf-8+BOM; thorough: every codec).  Every ordered pair of distinct output configurations "
     "(2 encodings x 4 error policies, thorough 4 x 7) is rendered first/second in a pristine process.  Complete within "
     "those bounds; no sampling."
 )
@@ -102,6 +105,7 @@ BOUNDS = {
         "outputs": 5, "neg": "all single bytes >=0x80 x 3 frames (4 for utf-8 and utf-8+BOM: also first-in-template) x 2 paths x {comment,input_encoding[,none]}",
         "bom_lead": "carrier 'lead' x all 12 BOM declaration styles x 20 strings starting with U+FF21/U+FEFF/U+FFFB/U+F000/U+EFFF (+6 ordinary)",
         "seq": "ordered pairs of distinct (encoding, policy) over {ascii, latin-1} x {strict, replace, xmlcharrefreplace, htmlentityreplace}: 56",
+        "long_comment": "first line of exactly {40,99,100,101,128,300,1100} bytes x padding after/before the coding: token x {comment, both agreeing, both conflicting, BOM contradicted} x codecs koi8-r, shift_jis, cp1252, utf-8+BOM x text carrier x 4 strings x 5 paths x 2 plain outputs",
     },
     "thorough": {
         "codecs": 11, "repertoire": 5, "max_chars": 3,
@@ -110,6 +114,7 @@ BOUNDS = {
         "paths": "bytes,file,mod,reopen,newproc,lookup", "outputs": 6,
         "neg": "single bytes as quick (4 frames for all codecs) + all two-byte sequences with lead >=0x80 (frame mid, comment) + UTF-8 3/4-byte boundary sequences, the 3-byte ones also directly behind the BOM",
         "bom_lead": "carrier 'lead' for every codec; for utf-8+BOM additionally all 27 declaration styles x 20 special-first-character strings",
+        "long_comment": "as quick for all 11 codecs, a third padding with a non-ASCII character of the codec, BOM contradicted by 3 codecs, carriers text+defattr, 6 strings, 6 paths",
         "seq": "ordered pairs over {ascii, latin-1, cp1252, shift_jis} x {strict, replace, xmlcharrefreplace, htmlentityreplace, ignore, backslashreplace, namereplace}: 756",
     },
 }
@@ -203,7 +208,51 @@ def _total_other(x):
     return "koi8-r" if x != "koi8-r" else "latin-1"
 
 
-def decls(codec, tier):
+LONG_LENGTHS = [40, 99, 100, 101, 128, 300, 1100]  # bytes of the first line, terminator included
+LONG_CODECS_QUICK = ["koi8-r", "shift_jis", "cp1252", "utf-8-bom"]
+_FILLER = "-*- mode: mako; fill-column: 100; indent-tabs-mode: nil; tab-width: 4 -*- "
+
+
+def long_header(x, n, pos, ch=None):
+    """A coding comment line of exactly n bytes (in codec x, newline included), padded after ('a') or before ('b') the
+    coding: token, as an editor modeline would; ch = a character of the codec put into the padding."""
+    if pos == "a":
+        head, tail = "## coding: %s; " % x, "\n"
+    else:
+        head, tail = "## ", "; coding: %s\n" % x
+    extra = ch or ""
+    need = n - len((head + tail + extra).encode(x))
+    assert need >= 0, (x, n, pos)
+    fill = (_FILLER * (need // len(_FILLER) + 1))[:need]
+    line = head + extra + fill + tail
+    assert len(line.encode(x)) == n and line.count("coding") == 1
+    return line
+
+
+def long_decls(codec, tier, seed=0):
+    """declaration-style dimension 'long comment': name long-<style>:<n>:<pos>"""
+    x = true_codec(codec)
+    quick = tier == "quick"
+    if quick and codec not in LONG_CODECS_QUICK:
+        return []
+    out = []
+    poss = ["a", "b"] if quick else ["a", "b", "c"]
+    for n in LONG_LENGTHS:
+        for pos in poss:
+            ch = None
+            if pos == "c":
+                ch = repertoire(codec, seed, 4)[1]
+            h = long_header(x, n, "a" if pos == "c" else pos, ch)
+            out.append(("long-comment:%d:%s" % (n, pos), h, x, None))
+            out.append(("long-both:%d:%s" % (n, pos), h, x, x))
+            out.append(("long-conflict:%d:%s" % (n, pos), h, x, _total_other(x)))
+            if codec == "utf-8-bom":
+                for c in (["koi8-r"] if quick else ["koi8-r", "latin-1", "shift_jis"]):
+                    out.append(("long-bomconflict:%s:%d:%s" % (c, n, pos), long_header(c, n, "a" if pos == "c" else pos, None), c, None))
+    return out
+
+
+def decls(codec, tier, seed=0, with_long=True):
     """-> list of (name, header text, comment codec spelling or None, input_encoding or None)"""
     x = true_codec(codec)
     thorough = tier != "quick"
@@ -232,6 +281,8 @@ def decls(codec, tier):
             out.append(("bomconflict:" + c, "## -*- coding: %s -*-\n" % c, c, None))
         for c in (["koi8-r", "ascii"] if thorough else ["koi8-r"]):
             out.append(("bom+ie:" + c, "", None, c))
+    if with_long:
+        out += long_decls(codec, tier, seed)
     return out
 
 
@@ -544,7 +595,9 @@ class Judge:
         self._failed = True
         self.any_failed = True
         d = self.declname
-        if d.startswith("bom"):
+        if d.startswith("long-"):
+            dc = d.split(":")[0]  # the lengths / padding side are in the case, not in the footprint
+        elif d.startswith("bom"):
             dc = d
         elif d.startswith("conflict"):
             dc = "conflicting"
@@ -555,7 +608,7 @@ class Judge:
         if oracle in ("render_type", "render_encode", "def_template", "render_unicode_type", "render_unicode_varies"):
             # output side: the declaration style plays no part
             sig = "%s|path=%s|%s" % (oracle, _pathclass(path), detail)
-        elif oracle == "outcome" and d.startswith("bom"):
+        elif oracle == "outcome" and (d.startswith("bom") or d.startswith("long-bom")):
             # decided while decoding, before any path-specific code runs: one footprint for all paths
             sig = "%s|decl=%s|%s" % (oracle, dc, detail)
         else:
@@ -723,8 +776,17 @@ def source_cases(tier, seed):
     carriers = CARRIERS_QUICK if quick else CARRIERS_THOROUGH
     for codec in CODECS:
         full, small = string_sets(codec, tier, seed)
-        ds = decls(codec, tier)
+        ds = decls(codec, tier, seed)
+        rep4 = repertoire(codec, seed, 4)
+        long_strings = [rep4[1], rep4[2], rep4[1] + rep4[3], rep4[0] + rep4[2]]
+        if not quick:
+            long_strings += [rep4[3], rep4[2] + rep4[2] + rep4[1]]
         for decl in ds:
+            if decl[0].startswith("long-"):
+                for carrier in (["text"] if quick else ["text", "defattr"]):
+                    for L in long_strings:
+                        yield codec, decl, carrier, L
+                continue
             for carrier in carriers:
                 for L in (full if decl[0] in BASE_DECLS else small):
                     yield codec, decl, carrier, L
@@ -749,6 +811,8 @@ def run_source_case(codec, decl, carrier, L, outs, paths, env, st, seen=None, li
     exp = reference(raw, cc, ie)
     kw_in = {"input_encoding": ie} if ie is not None else {}
     case_base = {"kind": "grid", "codec": codec, "decl": declname, "carrier": carrier, "L": L}
+    if declname.startswith("long-") and declname.endswith(":c"):
+        case_base["header"] = header  # its padding carries a seed-chosen character
     nontriv = bom or any(b >= 0x80 for b in raw) or (cc is not None and ie is not None and codecs.lookup(cc).name != codecs.lookup(ie).name)
 
     closed = closed_def = ref_u = ref_code = None
@@ -896,7 +960,9 @@ def run_grid(job, st):
         if shard_of(raw, decl[3], ns) != sh:
             continue
         nsrc += 1
-        run_source_case(codec, decl, carrier, L, outs, paths, env, st, seen=seen, lite_paths=PATHS_QUICK_LITE if quick else None)
+        # the long-comment styles concern decoding only: crossed with the two plain output configurations
+        run_source_case(codec, decl, carrier, L, outs[:2] if decl[0].startswith("long-") else outs, paths, env, st, seen=seen,
+                        lite_paths=PATHS_QUICK_LITE if quick else None)
         if env.count >= FLUSH_EVERY:
             flush_newproc(env, st)
     flush_newproc(env, st)
@@ -1275,9 +1341,12 @@ def replay(case):
             codec = case["codec"]
             decl = None
             for tier in ("quick", "thorough"):
-                for d in decls(codec, tier):
-                    if d[0] == case["decl"]:
-                        decl = d
+                for sd in range(4):
+                    for d in decls(codec, tier, sd):
+                        if d[0] == case["decl"] and (not d[0].startswith("long-") or case.get("header") in (None, d[1])):
+                            decl = d
+                            break
+                    if decl:
                         break
                 if decl:
                     break
